@@ -5,9 +5,10 @@ export GOFLAGS=-mod=mod GOPROXY=off GOSUMDB=off GOTOOLCHAIN=local
 wt=/tmp/seedwt_$$
 git -C /repo worktree add -q --detach $wt HEAD || exit 2
 trap 'git -C /repo worktree remove --force '$wt' >/dev/null 2>&1' EXIT
-out=/verif/seeded/matrix.txt
+here=$(cd "$(dirname "$0")/.." && pwd)
+out=$here/seeded/matrix.txt
 [ -z "$1" ] && : > $out
-cd /verif
+cd $here
 for d in seeded/*/; do
   name=$(basename $d)
   [ -n "$1" ] && [[ "$name" != *"$1"* ]] && continue
